@@ -315,7 +315,8 @@ pub fn run_c25(ctx: &mut Ctx) {
         304, stale validators, new session, serial jumps, foreign origin, dropped/duplicated/shuffled/mutated delta \
         entries, oversized list, file status/garbage/malformed/cut/torn, dropped/extra/changed elements, wrong \
         preconditions, wrong meta); plus the exhaustive single-fault catalogue at steps 1 and 2 of a fixed 5-version \
-        history and (delta-file fault x snapshot fault) pairs; distinct = distinct (outcome, path, faults) sequences".into();
+        history and (delta-file fault x snapshot fault) pairs; the server going backwards within a session (genuine older \
+        views with long/short/empty lists, changed hashes, lowered serial only) and faulty views of an unchanged server; distinct = distinct (outcome, path, faults) sequences".into();
     let srv = Server::start();
     let mut inputs: Vec<Value> = Vec::new();
     if let Some(replay) = ctx.replay_inputs() {
@@ -328,6 +329,8 @@ pub fn run_c25(ctx: &mut Ctx) {
         }
         let mut rng = ctx.rng.fork();
         for sc in enumerate_single(&mut rng) { inputs.push(sc.to_json()); }
+        for sc in enumerate_rollback(&mut rng) { inputs.push(sc.to_json()); }
+        for sc in enumerate_unchanged(&mut rng) { inputs.push(sc.to_json()); }
         for sc in enumerate_pairs(&mut rng, !ctx.quick() || ctx.search) { inputs.push(sc.to_json()); }
         let n = ctx.budget(150, 2000);
         for _ in 0..n {
